@@ -251,6 +251,22 @@ fn check_cli(c: char, l: &str, r: &str) -> Result<(), (String, String)> {
     }
     type_str(&mut s, "\n").map_err(e)?;
     verify(&s, 2)?;
+    // submit a line that is a proper prefix of the stored one (its first token), then recall both: each comes back
+    // byte for byte (a history that confuses "starts with" and "equals" cuts the older line, possibly inside X)
+    let head = quote_token(&toks[0], false);
+    if head.len() < line.len() && line.starts_with(&head) {
+        // (another line in between, so that the longer one is no longer the newest entry)
+        let other = "zz".to_string();
+        type_str(&mut s, "zz\r").map_err(e)?;
+        type_str(&mut s, &head).map_err(e)?;
+        type_str(&mut s, "\r").map_err(e)?;
+        for want in [&head, &other, &line] {
+            type_str(&mut s, "\x1b[A").map_err(e)?;
+            if s.editor().bytes != want.as_bytes() {
+                return Err((format!("after submitting {:?} and then its prefix {:?}, Up recalls {:?}", line, head, want), format!("{:?}", String::from_utf8_lossy(&s.editor().bytes))));
+            }
+        }
+    }
     Ok(())
 }
 
